@@ -365,12 +365,12 @@ class P(Prop):
 
     def exhaustive_scopes(self, tier):
         if tier == "thorough":
-            return ["every table assignment of every shape with T <= 3 epochs and 1..2 states per epoch (14 shapes, 5 203 596 assignments) "
+            return ["every table assignment of every shape with T <= 3 epochs and 1..2 states per epoch (14 shapes, 5 175 210 assignments) "
                     "over log-likelihoods {0,-1,-2} (costs 0,1,2; exact)",
-                    "the same 5 203 596 assignments over likelihoods {0, 0.5, 1}, each decoded both as likelihoods and as the corresponding logarithms"]
+                    "the same 5 175 210 assignments over likelihoods {0, 0.5, 1}, each decoded both as likelihoods and as the corresponding logarithms"]
         return ["every table assignment of every shape with T <= 3, S <= 2 that has at most %d assignments (all shapes with T <= 2; "
                 "(1,1,1) (1,1,2) (1,2,1) (2,1,1) (2,1,2)): 37 947 assignments over log-likelihoods {0,-1,-2} and again over likelihoods {0,0.5,1}; "
-                "the shapes (1,2,2) (2,2,1) (2,2,2) are sampled (enumerated completely in the thorough tier)" % self.QUICK_FULL]
+                "the shapes (1,2,2) (2,2,1) (2,2,2) are sampled by 40 random blocks of 243 consecutive assignments each (enumerated completely in the thorough tier)" % self.QUICK_FULL]
 
     def blocks(self, n, log, total):
         return [{"kind": "exh", "log": log, "n": n, "start": s, "count": min(BLOCK, total - s)} for s in range(0, total, BLOCK)]
@@ -419,7 +419,7 @@ class P(Prop):
                 if thorough or total <= self.QUICK_FULL:
                     out += self.blocks(n, log, total)
                 else:
-                    for _ in range(12):
+                    for _ in range(40):
                         s = rng.randrange(0, total // BLOCK) * BLOCK
                         out.append({"kind": "exh", "log": log, "n": n, "start": s, "count": BLOCK})
         # an epoch without candidates / no epoch at all (outside the statement; error kinds are compared)
